@@ -967,7 +967,8 @@ class _Impl:
     pg = self.pg
     ap = case['ap']
     if case['kind'] == 'load':
-      res = self.attempt(lambda: pg.from_json(self.jv_build(case['json']), allow_partial=ap))
+      ad = bool(case.get('auto_dict'))
+      res = self.attempt(lambda: pg.from_json(self.jv_build(case['json']), allow_partial=ap, auto_dict=ad))
     else:
       text = json.dumps(self.jv_build(case['json']))
       res = self.attempt(lambda: pg.from_json_str(text, allow_partial=ap))
@@ -1404,7 +1405,10 @@ class C05(Prop):
     for i in range(n_load):
       sf = rng.chance(0.4)
       jg = JsonGen(rng, str_form=sf)
-      yield {'kind': 'load_str' if sf else 'load', 'json': jg.value(rng.randint(0, 3)), 'ap': rng.chance(0.4)}
+      case = {'kind': 'load_str' if sf else 'load', 'json': jg.value(rng.randint(0, 3)), 'ap': rng.chance(0.4)}
+      if not sf and rng.chance(0.35):
+        case['auto_dict'] = True
+      yield case
     for i in range(n_store):
       if rng.chance(0.2):
         yield gen_messy_store_case(rng)
@@ -1479,7 +1483,10 @@ class C05(Prop):
         req['hide_default_values'] = case['opts']['hide_default_values']
       return req
     if k in ('load', 'load_str'):
-      return {'op': k, 'env': ENV, 'json': case['json'], 'ap': case['ap']}
+      req = {'op': k, 'env': ENV, 'json': case['json'], 'ap': case['ap']}
+      if case.get('auto_dict'):
+        req['auto_dict'] = True
+      return req
     if k == 'store':
       ops = []
       for op in lower_ops(case['ops']):
@@ -1866,7 +1873,7 @@ class C05(Prop):
           h.append('codec:normalised-on-build')
     elif k in ('load', 'load_str'):
       rt = out['model']['rt']
-      h.append('%s:%s' % (k, 'ok' if 'ok' in rt else rt['err']))
+      h.append('%s%s:%s' % (k, '+auto_dict' if case.get('auto_dict') else '', 'ok' if 'ok' in rt else rt['err']))
     elif k == 'dna':
       m = out['model']
       h.append('dna:' + ('rejected-by-constructor' if 'parse' in m else 'rt=' + ('ok' if 'ok' in m['rt'] else m['rt']['err'])))
